@@ -358,6 +358,10 @@ def main(argv):
                 publication_gap(ck, hb, ref, work, js[0], ctx)
             else:
                 batch(ck, hb, db, ref, work, mode, js, n, seed, traced, prewarm, ctx)
+    except B.Infrastructure as e:
+        B.rmtree(work)
+        print("INFRASTRUCTURE-ERROR: libocca.so of %s cannot be loaded (%s); no verdict" % (BUILD, e))
+        sys.exit(2)
     finally:
         B.rmtree(work)
     ck.cov["samples"] = ctx["samples"][:6] or [{"note": "no traced batch in this run"}]
